@@ -88,7 +88,7 @@ def generate(rng, tier):
     lengths = list(range(0, 131)) + list(range(65530, 65541))
     if quick:
         lengths = list(range(0, 131, 1 if rng.random() < 2 else 3))
-        big = [65530, 65535, 65536, 65540]
+        big = [65535, 65536]
     else:
         big = list(range(65530, 65541)) + [rng.randrange(65541, 1 << 20) for _ in range(6)] + [1 << 20]
     # structured stream: build, then parse what was built followed by a tail
@@ -146,6 +146,10 @@ def generate(rng, tier):
         ln = rng.choice([0, 1, 16, 19, 20, 24, 27, 28, 55, 56, 64, 100, 119, 120, 200])
         cases.append(dict(kind='accept', key=bytes(rng.randrange(256) for _ in range(ln))))
     cases.append(dict(kind='accept', key=b'dGhlIHNhbXBsZSBub25jZQ=='))
+    # boundary stream for keys: surrounding whitespace / NUL / high bytes must be hashed as they are
+    for pre in (b'', b' ', b'\t', b'\n'):
+        for post in (b'', b' ', b'\r\n', b'\x00'):
+            cases.append(dict(kind='accept', key=pre + b'dGhlIHNhbXBsZSBub25jZQ==' + post))
     return cases
 
 
